@@ -55,6 +55,7 @@ func vfLenAck(r *QueryResponse) int {
 //
 //vf:unwind 16
 //vf:bound state 1 open query (symbolic time/id, ack requested or not, closed or not, deadline passed or not), <=2 responders already delivered per stream; reply: symbolic time/id/kind, sender one of 3 names
+//vf:nonative
 func VfC07_Step() {
 	s := vfNewSerf("self", 1)
 	lt, id := LamportTime(vfU64("qt")), vfU32("qid")
